@@ -508,6 +508,66 @@ def gen_parse_line(rng):
     return b"".join(rng.choice(alphabet) for _ in range(n))
 
 
+def shrink_table(S, T, budget=70):
+    """Greedy reduction of a table on which vita and the table oracle disagree: drop rows, then
+    columns, then shorten cells, as long as the disagreement stays.  Returns (T, line, answer)."""
+    def attempt(T2):
+        data = render_csv(C.SplitMix(4242), T2)
+        exp = expected_csv(T2)
+        ln = csv_line(T2, data)
+        ans, deaths = S.cpp([ln])
+        a = ans[0] if ans else "died"
+        if isinstance(exp, dict):
+            got = parse_dump(a)
+            bad = got is None or first_diff(exp, got) is not None
+        elif exp == "exc":
+            bad = not a.startswith("exc")
+        else:
+            bad = False
+        return bad, ln, a
+    best = dict(T)
+    bad, ln, a = attempt(best)
+    if not bad:
+        return None
+    used = 1
+    changed = True
+    while changed and used < budget:
+        changed = False
+        n = len(best["rows"])
+        for chunk in (n // 2, n // 4, 1):
+            i = 0
+            while chunk >= 1 and i < len(best["rows"]) and len(best["rows"]) > 1 and used < budget:
+                cand = dict(best)
+                cand["rows"] = best["rows"][:i] + best["rows"][i + chunk:]
+                if not cand["rows"]:
+                    break
+                ok2, l2, a2 = attempt(cand)
+                used += 1
+                if ok2:
+                    best, ln, a, changed = cand, l2, a2, True
+                else:
+                    i += chunk
+        j = 0
+        while j < best["ncols"] and best["ncols"] > 1 and used < budget:
+            if j == best["out"]:
+                j += 1
+                continue
+            cand = dict(best)
+            cand["ncols"] = best["ncols"] - 1
+            cand["kinds"] = best["kinds"][:j] + best["kinds"][j + 1:]
+            cand["rows"] = [r[:j] + r[j + 1:] for r in best["rows"]]
+            cand["header"] = None if best["header"] is None else best["header"][:j] + best["header"][j + 1:]
+            if best["out"] is not None and best["out"] > j:
+                cand["out"] = best["out"] - 1
+            ok2, l2, a2 = attempt(cand)
+            used += 1
+            if ok2:
+                best, ln, a, changed = cand, l2, a2, True
+            else:
+                j += 1
+    return best, ln, a
+
+
 def nontrivial(kind, ln, answer):
     """csv / xrff / var: the import succeeded with at least one example and two columns;
     parse: the text has a quote; sniff: the file has at least two lines."""
@@ -539,9 +599,14 @@ def run(chk, replay=None):
 
     # ---- inputs ------------------------------------------------------------
     cases = []      # (kind, request line for C++, request line for the model or None, expected, info)
-    if replay:
-        r = json.load(open(replay))["replay"]
-        cases.append((r.get("kind", "csv"), r["line"], r.get("model_line", r["line"]), None, {"replay": True}))
+    rp = json.load(open(replay)).get("replay", {}) if replay else {}
+    if "line" in rp:          # a concrete failing input: run exactly this request again
+        k = rp.get("kind", rp["line"].split()[0])
+        exp = rp.get("expected")
+        if isinstance(exp, dict):       # the table oracle's expectation travels with the replay
+            exp = dict(exp, cols=[(c[0], c[1], tuple(c[2])) for c in exp["cols"]],
+                       examples=[(e[0], tuple(e[1])) for e in exp["examples"]])
+        cases.append((k, rp["line"], None if k == "xrff" else rp["line"], exp, {"replay": True}))
     else:
         cdir = os.path.join(C.ROOT, "corpus", "C09")
         if os.path.isdir(cdir):
@@ -614,6 +679,7 @@ def run(chk, replay=None):
             model[i] = a
 
     ndis = 0
+    nshrunk = 0
     for i, (kind, ln, mln, exp, info) in enumerate(cases):
         a = cpp[i] if i < len(cpp) else "skipped"
         chk.seen(ln, nontrivial=nontrivial(kind, ln, a))
@@ -634,16 +700,29 @@ def run(chk, replay=None):
         if isinstance(exp, dict):
             chk.count("oracle:table")
             got = parse_dump(a)
+            d = None if got is None else first_diff(exp, got)
+            if (got is None or d) and kind == "csv" and "T" in info and nshrunk < 2:
+                nshrunk += 1
+                sh = shrink_table(S, info["T"])
+                if sh is not None:                      # report the reduced table instead
+                    T2, ln2, a2 = sh
+                    exp, a = expected_csv(T2), a2
+                    got = parse_dump(a)
+                    d = None if got is None or not isinstance(exp, dict) else first_diff(exp, got)
+                    rep = {"kind": kind, "line": ln2, "cpp": a[:2000], "shrunk_from": ln[:400],
+                           "file": unhx(ln2.split()[6]).decode("latin1")}
+                    chk.count("shrunk")
+            rep["expected"] = exp
             if got is None:
-                chk.violation("well-formed table rejected: %s (expected %d examples)" % (a, len(exp["examples"])),
+                chk.violation("well-formed table rejected: %s (expected %s)"
+                              % (a, "%d examples" % len(exp["examples"]) if isinstance(exp, dict) else exp),
                               rep, tags=tags)
-            else:
-                d = first_diff(exp, got)
-                if d:
-                    rep["expected"] = exp
-                    chk.violation("import differs from the table (table vs vita): " + d, rep, tags=tags)
+            elif d:
+                rep["expected"] = exp
+                chk.violation("import differs from the table (table vs vita): " + d, rep, tags=tags)
         elif exp == "exc":
             chk.count("oracle:exc")
+            rep["expected"] = exp
             if not a.startswith("exc"):
                 chk.violation("expected an exception (no data rows / a single class), got: " + a[:200], rep, tags=tags)
         elif isinstance(exp, str):
